@@ -35,7 +35,8 @@ THEOREMS = [
     "C08_keep_own_values",
     "C08_keep_own_unedited",
     "C08_keep_own_idempotent",
-    "C08_rebuild_idempotent_refuted",
+    "C08_unedited_no_regroup",
+    "C08_unedited_runs_within",
     "C08_expand",
     "C08_expand_zero_count_refuted",
     "C08_recompress",
@@ -137,6 +138,7 @@ def ser_shortcut(sc, sid, idof):
         "endPad": sc.end_padding.format() if sc.end_padding else "",
         "mulTxt": "",
         "mulWritten": None,
+        "ownStart": bool(getattr(sc, "_own_start", False)),
         "mulOg": rat(num._og_value) if kind == "mul" and isinstance(num._og_value, (int, float)) else None,
     }
     if kind == "lin" and hasattr(sc, "_begin"):
@@ -150,7 +152,7 @@ def ser_shortcut(sc, sid, idof):
     return d
 
 
-def ser_leaf(node, idof):
+def ser_leaf(node, idof, fresh_ids=None):
     mp = _mp()
     sn = mp.montepy.input_parser.syntax_node
     txt = node.format()
@@ -171,6 +173,7 @@ def ser_leaf(node, idof):
         "txtPad": txt_pad,
         "padNone": node.padding is None,
         "neverPad": bool(node.never_pad),
+        "fresh": True if fresh_ids is None else id(node) in fresh_ids,
     }
 
 
@@ -251,8 +254,9 @@ def _run_impl(case):
             _only_impl(e)
             return {"err": "raises:" + type(e).__name__, "site": "consume"}
         try:
-            mcase["vals"] = [ser_leaf(v, idof) for v in vals]
-            mcase["own"] = [ser_leaf(v, idof) for v in own]
+            fresh_ids = getattr(ln, "_fresh_ids", None)
+            mcase["vals"] = [ser_leaf(v, idof, fresh_ids) for v in vals]
+            mcase["own"] = [ser_leaf(v, idof, fresh_ids) for v in own]
         except Exception as e:  # noqa: BLE001  ValueNode.format of a node raised
             _only_impl(e)
             return {"err": "raises:" + type(e).__name__, "site": "format"}
@@ -298,6 +302,8 @@ def _run_impl(case):
             res["rounds"].append({"values": [], "err": "raises:" + type(e).__name__, "site": "edit"})
             break
         ob = {"values": [rat(v.value) if v.value is not None else None for v in vals]}
+        if len(res["rounds"]) == 0 and all(e[0] == "copyall" for e in edits):
+            ob["source"] = case["text"]  # nothing edited: the rebuild must give back the text that was read
         ob.update(rebuild(vals))
         if "err" not in ob:
             # standing check: rebuilding again from the same values gives the same list and the same bytes
@@ -405,6 +411,17 @@ def parse_agrees(model_items, res):
 
 
 # --------------------------------------------------------------------------- oracle
+def _decomment(text):
+    """MCNP's comment rules for the text of a list: `$` to the end of the line, and lines whose first non-blank within
+    the first five columns is a lone `c`"""
+    out = []
+    for k, line in enumerate(text.split("\n")):
+        if k > 0 and re.match(r"^ {0,4}[cC]( |$)", line):
+            continue
+        out.append(line.split("$")[0])
+    return "\n".join(out)
+
+
 def _floats(values):
     return [None if v is None else Fraction(v[0], v[1]) for v in values]
 
@@ -417,12 +434,14 @@ def judge_round(ob):
     """The property on one write of the real code: (signature, detail) or None."""
     if "err" in ob:
         return ({"mechanism": "shortcut", "class": ob["err"], "kind": "list", "site": ob["site"]}, ob["err"])
-    bad = ref.compare(ob["text"], _floats(ob["values"]))
+    bad = ref.compare(_decomment(ob["text"]), _floats(ob["values"]))
     if bad is not None:
         cls, kind, detail = bad
         return ({"mechanism": "shortcut", "class": cls, "kind": kind, "site": "format"}, f"{detail}; text {ob['text']!r}")
     kinds = [pw[0] for w in ob["text"].split() for pw in [ref.parse_word(w)] if pw and pw[0] != "number"]
     kind = kinds[0] if kinds else "list"
+    if "source" in ob and ob["text"] != ob["source"]:
+        return ({"mechanism": "shortcut", "class": "unedited-rebuild-differs", "kind": kind, "site": "format"}, f"read {ob['source']!r}, rebuilt from its own values and written {ob['text']!r}")
     if ob.get("text_again") != ob["text"]:
         return ({"mechanism": "shortcut", "class": "observation-not-pure", "kind": kind, "site": "format-again"}, f"format() {ob['text']!r}, format() again {ob.get('text_again')!r}")
     second = ob.get("second")
@@ -441,7 +460,7 @@ def judge_round(ob):
 
 def judge_parse(case, res):
     """Parse-time expansion against the independent reader."""
-    ex = ref.expand(case["text"])
+    ex = ref.expand(_decomment(case["text"]))
     kinds = [KIND_LONG.get(k) for k in ("rep", "jmp", "mul", "lin", "log")]
     first = "list"
     for w in case["text"].split():
@@ -582,6 +601,49 @@ def gen_produced_edit(rng, i):
     return {"unit": "listnode", "text": text, "rounds": rounds}
 
 
+GAPS = [" ", " ", "  ", "      ", "\n     ", "\n        ", " $ x = (y)\n       ", " $ 2r\n     ", "\nc a comment card 3r\n     ", "\n c 2m\n      "]
+
+
+def gen_layout(rng, i):
+    """comments and line breaks inside every gap of a list, also between an entry and the shortcut that follows it;
+    unedited (the rebuild must echo the text) or one edit"""
+    base = gen_random(rng, i) if rng.random() < 0.5 else gen_coincidence(rng, i)
+    words = base["text"].split()
+    text = words[0]
+    for w in words[1:]:
+        text += rng.choice(GAPS) + w
+    r = rng.random()
+    rounds = [[]] if r < 0.4 else [[["copyall"]]] if r < 0.7 else base["rounds"][:1]
+    return {"unit": "listnode", "text": text, "rounds": rounds}
+
+
+def gen_coincidence(rng, i):
+    """value coincidences: the entry after a shortcut is what the shortcut would produce next (run value x factor = next
+    entry, repeat value = next entry, interpolation end + step = next entry, jump next to jump), adjacent shortcuts with
+    and without a first value of their own"""
+    a = rng.choice([1.0, 2.0, 4.0, 0.5, 3.0, 0.0])
+    f = rng.choice([2, 3, -1, 5])
+    n = rng.randint(1, 4)
+    pats = [
+        f"{a} {n}r {a}", f"{a} {n}r {a} r", f"{a} {n}r {a} {n}r", f"{a} r {a * f} {f}m", f"{a} {n}r {a * f} {f}m",
+        f"{a} {n}r {f}m {a * f * f}", f"{a} {f}m {a * f * f}", f"{a} {f}m {a * f} {f}m", f"{a} {n}r {a * f} {f}m {a * f * f}",
+        f"{a} {n}i {a + (n + 1)} {a + (n + 2)}", f"{a} {n}i {a + (n + 1)} {a + (n + 1)} r", f"{a - 1} {a} {n}i {a + n + 1}",
+        f"{a} {n}i {a + n + 1} {n}i {a + 2 * (n + 1)}", f"{a + 1} {n}r {a + 1} {n}i {a + 2 + n}", "j j 1 j", f"{a} j 2j j {a}", f"{a} 2j j",
+        f"1 ilog 100 1000", f"1 ilog 100 ilog 1e4", f"{a} {f}m {f}m {a * f * f * f}",
+    ]
+    text = rng.choice(pats)
+    ex = ref.expand(text)
+    nv = len(ex) if ex else 4
+    r = rng.random()
+    if r < 0.45:
+        rounds = [[]]
+    elif r < 0.7:
+        rounds = [[["copyall"]], [["copyall"]]]
+    else:
+        rounds = [[["set", rng.randrange(nv), rng.choice([a, a * f, 1.0, 7.0])]], []]
+    return {"unit": "listnode", "text": text, "rounds": rounds}
+
+
 def gen_drift(rng, i):
     """values that differ from their neighbour by less than rel_tol but drift away from the written value"""
     n = rng.randint(3, 9)
@@ -613,6 +675,15 @@ CORPUS = [
     {"unit": "listnode", "text": "1 2i 4", "rounds": [[["set", 1, 2.5]]]},
     {"unit": "listnode", "text": "1 2i 4 3m", "rounds": [[["set", 3, 5.0]]]},
     {"unit": "listnode", "text": "1 2i 4 2 2 r", "rounds": [[["set", 2, 2.0], ["set", 3, 2.0]]]},
+    # round 8: an unedited list is written back as it was read (C01 witness and its neighbours)
+    {"unit": "listnode", "text": "1.0 4r 2 $ x = (y)\n       2m", "rounds": [[["copyall"]]]},
+    {"unit": "listnode", "text": "1 2r 1", "rounds": [[]]},
+    {"unit": "listnode", "text": "3.0 3R 3.0 R", "rounds": [[]]},
+    {"unit": "listnode", "text": "-2 i 2.5 2 1i 1", "rounds": [[]]},
+    {"unit": "listnode", "text": "4 9i -4", "rounds": [[]]},
+    {"unit": "listnode", "text": "0 2m 1r 4", "rounds": [[]]},
+    {"unit": "listnode", "text": "9 9 1 1.0000000009 1.0000000018 r 5", "rounds": [[], []]},
+    {"unit": "listnode", "text": "10 1i 16 10 0.5 3J", "rounds": [[], [["ins", 6, "4.0"]]]},
     # round 7: a value assigned to a shortcut-produced node is written; history independence of a multiply
     {"unit": "listnode", "text": "4 5m 3R", "rounds": [[["set", 4, 4.0]]]},
     {"unit": "listnode", "pinned": True, "text": "50. 1.0 2m 1 2.", "rounds": [[["copyall"], ["set", 2, 1.0]], [["copyall"], ["set", 1, 2.0]], [["copyall"], ["set", 4, 0.0]]]},
@@ -917,7 +988,7 @@ def judge_card(case, ob):
 def _model_results(drv, impl):
     batch, where = [], []
     for ci, ri in enumerate(impl):
-        toks = tokens_of(ri.get("text", "")) if "text" in ri else None
+        toks = tokens_of(_decomment(ri.get("text", ""))) if "text" in ri else None
         if toks is not None:
             batch.append({"op": "parse", "toks": toks})
             where.append((ci, -1, "parse"))
@@ -926,7 +997,7 @@ def _model_results(drv, impl):
                 batch.append(ob["model_case"])
                 where.append((ci, k, "model"))
             if "text" in ob:
-                batch.append({"op": "spec", "text": ob["text"], "vals": ob["values"]})
+                batch.append({"op": "spec", "text": _decomment(ob["text"]), "vals": ob["values"]})
                 where.append((ci, k, "spec"))
             if "model_case" in ob.get("second", {}):
                 batch.append(ob["second"]["model_case"])
@@ -969,7 +1040,7 @@ def check_listnode_case(chk, drv, case, ri, table, ci, confirm=True):
         if not parse_agrees(pm["items"], ri):
             chk.disagreements_checked += 1
             r2 = run_impl(case)
-            m2 = drv.batch([{"op": "parse", "toks": tokens_of(case["text"])}])[0]
+            m2 = drv.batch([{"op": "parse", "toks": tokens_of(_decomment(case["text"]))}])[0]
             if parse_agrees(m2["items"], r2):
                 chk.count("flaky:parse-correspondence")
             else:
@@ -997,7 +1068,7 @@ def check_listnode_case(chk, drv, case, ri, table, ci, confirm=True):
         spec = table.get((ci, k, "spec"))
         if spec is not None and "text" in ob:
             lean_ok = bool(spec.get("ok"))
-            py_ok = "err" not in ob and ref.compare(ob["text"], _floats(ob["values"])) is None
+            py_ok = "err" not in ob and ref.compare(_decomment(ob["text"]), _floats(ob["values"])) is None
             if lean_ok != py_ok:
                 raise MachineryError(f"the two independent readers disagree on {ob['text']!r} vs {ob['values']}: lean={spec} python={v}")
         if v is not None:
@@ -1153,6 +1224,9 @@ def run(chk):
     cases += [gen_random(rng, i) for i in range(chk.pick(4000, 60000))]
     rng4 = chk.rng("produced-edit")
     cases += [gen_produced_edit(rng4, i) for i in range(chk.pick(600, 6000))]
+    rng5 = chk.rng("layout")
+    cases += [gen_layout(rng5, i) for i in range(chk.pick(900, 12000))]
+    cases += [gen_coincidence(rng5, i) for i in range(chk.pick(500, 6000))]
     rng2 = chk.rng("drift")
     cases += [gen_drift(rng2, i) for i in range(chk.pick(200, 3000))]
     nrandom = len(cases) - ncorpus
